@@ -1,5 +1,5 @@
 //@ unit ctl
-//@ props C04 C05 C06 C07
+//@ props C04 C05 C06 C07 C16
 //@ assume ZXSpecs field values returned by ZXMachine::specs() are assumed here (spec `specs_ok`) and proved on the real lazy_static tables by Kani harness K-core::specs_48k/specs_128k
 //@ assume ZXMachine::bank_is_contended == {0} / {1,3,5,7}: assumed here (closure with pattern is outside the Verus subset), proved by Kani harness K-core::bank_is_contended
 //@ assume tape/mixer/screen/border calls inside wait_internal/new_frame/write_internal/write_7ffd/set_border_color are external: each takes &mut to its own struct only (frame by ownership); their behaviour is the subject of C08/C09/C11/C19 units
@@ -7,6 +7,7 @@
 //@ assume trait dispatch: the methods of `impl Z80Bus for ZXController` are verified as inherent methods (R-inherent); that the CPU calls exactly these through the trait is Rust semantics, not re-proved
 //@ assume Host/IoExtender/DebugInterface implementations are arbitrary (uninterpreted); IoExtender::extends_port is treated as a pure function of (&self, port)
 use vstd::prelude::*;
+use core::time::Duration;
 
 verus! {
 
@@ -230,8 +231,10 @@ pub struct ZXBorder<FB> { _p: core::marker::PhantomData<FB> }
 pub struct ZXTape<A> { _p: core::marker::PhantomData<A> }
 #[verifier::external_body]
 pub struct Error { _p: u8 }
-#[verifier::external_body]
-pub struct EmulationEvents { _p: u8 }
+pub type Result<T> = core::result::Result<T, Error>;
+/// bitflags!-generated struct (macro code is outside the subset): its one field, R-ext shape only
+#[derive(Clone, Copy)]
+pub struct EmulationEvents { pub bits: u8 }
 #[verifier::external_body]
 pub struct AymPrecise { _p: u8 }
 #[verifier::external_body]
@@ -265,7 +268,7 @@ impl<FB> ZXBorder<FB> {
 }
 impl<A> ZXTape<A> {
     #[verifier::external_body]
-    pub fn process_clocks(&mut self, clocks: usize) -> Result<(), Error> { unimplemented!() }
+    pub fn process_clocks(&mut self, clocks: usize) -> core::result::Result<(), Error> { unimplemented!() }
     #[verifier::external_body]
     pub fn current_bit(&self) -> bool { unimplemented!() }
 }
@@ -295,7 +298,12 @@ pub trait IoExtender {
 pub trait DebugInterface {
     fn check_pc_breakpoint(&mut self, addr: u16) -> bool;
 }
+pub trait Stopwatch: Sized {
+    fn new() -> Self;
+    fn measure(&self) -> Duration;
+}
 pub trait Host {
+    type EmulationStopwatch: Stopwatch;
     type TapeAsset;
     type FrameBuffer;
     type IoExtender: IoExtender;
@@ -559,10 +567,12 @@ impl<H: Host> ZXController<H> {
         ensures r == self.passed_frames,
 //@ end
 
-//@ fn rustzx-core/src/zx/controller.rs impl <H:Host>ZXController<H>::reset_frame_counter props C05
+//@ fn rustzx-core/src/zx/controller.rs impl <H:Host>ZXController<H>::reset_frame_counter props C05 C16
 //@ sig
         ensures final(self).passed_frames == 0, final(self).frame_clocks == old(self).frame_clocks,
             final(self).same_core(old(self)),
+            // C16: nothing but the host-side frame counter changes
+            *final(self) == (ZXController { passed_frames: 0, ..*old(self) }),
 //@ end
 
 //@ fn rustzx-core/src/zx/controller.rs impl <H:Host>Z80BusforZXController<H>::int_active props C05
@@ -914,6 +924,214 @@ impl<H: Host> ZXController<H> {
         &&& self.paging_enabled == o.paging_enabled && self.screen_bank == o.screen_bank
         &&& self.current_port_7ffd == o.current_port_7ffd
     }
+}
+
+
+// ======================================================================
+// C16: emulate_frames is iteration of ONE machine-step function, whatever the host's slicing
+// ======================================================================
+#[verifier::external_body]
+pub struct Z80 { _p: u8 }
+#[verifier::external_body]
+pub struct RustzxSettings { _p: u8 }
+//@ item rustzx-core/src/utils/mod.rs enum EmulationMode
+//@ item rustzx-core/src/emulator/mod.rs enum EmulationStopReason
+//@ item rustzx-core/src/emulator/mod.rs struct EmulationInfo
+//@ item rustzx-core/src/emulator/mod.rs struct Emulator
+
+/// machine state: CPU, controller without the host-side `passed_frames` counter, fast-load switch.
+/// `mode` (frames per call / max speed), `sound_enabled` and the stopwatch are host driving, not state.
+pub ghost struct MS<H: Host> { pub c: Z80, pub m: ZXController<H>, pub fl: bool }
+
+#[verifier::opaque]
+pub open spec fn mview<H: Host>(c: ZXController<H>) -> ZXController<H> { ZXController { passed_frames: 0, ..c } }
+pub open spec fn clr_err<H: Host>(m: ZXController<H>) -> ZXController<H> { ZXController { last_emulation_error: None, ..m } }
+pub open spec fn clr_ev<H: Host>(m: ZXController<H>) -> ZXController<H> { ZXController { events: EmulationEvents { bits: 0 }, ..m } }
+pub proof fn lemma_mview<H: Host>(c: ZXController<H>)
+    ensures mview(clr_err(c)) == clr_err(mview(c)), mview(clr_ev(c)) == clr_ev(mview(c)),
+        mview(c).last_emulation_error == c.last_emulation_error, mview(c).events == c.events, mview(c).tape == c.tape,
+        mview(ZXController { passed_frames: 0, ..c }) == mview(c),
+{
+    reveal(mview);
+}
+
+impl<H: Host> Emulator<H> {
+    pub open spec fn ms(&self) -> MS<H> { MS { c: self.cpu, m: mview(self.controller), fl: self.fast_load } }
+}
+
+/// what Z80::emulate / fast_load_tap compute (C01-C03 / C10 say what; here only: a function of the machine state)
+pub uninterp spec fn cpu_step<H: Host>(c: Z80, m: ZXController<H>) -> (Z80, ZXController<H>);
+pub uninterp spec fn fast_load<H: Host>(s: MS<H>) -> (MS<H>, Option<Error>);
+pub uninterp spec fn tape_can_fast_load<A>(t: ZXTape<A>) -> bool;
+
+pub enum Outcome { Continue, Break, Fail(Error) }
+
+pub open spec fn ev_fastload(bits: u8) -> bool { bits & 1 == 1 }
+pub open spec fn ev_break(bits: u8) -> bool { bits & 2 == 2 }
+
+/// C16: one pass through the step loop: CPU step, pending error, events, fast load, breakpoint
+pub open spec fn substep<H: Host>(s: MS<H>) -> (MS<H>, Outcome) {
+    let (c1, m1) = cpu_step(s.c, s.m);
+    if m1.last_emulation_error is Some {
+        (MS { c: c1, m: clr_err(m1), fl: s.fl }, Outcome::Fail(m1.last_emulation_error->Some_0))
+    } else {
+        let ev = m1.events.bits;
+        let s3 = MS { c: c1, m: clr_ev(m1), fl: s.fl };
+        let (s4, ferr) = if ev_fastload(ev) && tape_can_fast_load(s3.m.tape) && s3.fl { fast_load(s3) } else { (s3, None::<Error>) };
+        if ferr is Some { (s4, Outcome::Fail(ferr->Some_0)) }
+        else if ev_break(ev) { (s4, Outcome::Break) }
+        else { (s4, Outcome::Continue) }
+    }
+}
+
+/// n steps
+#[verifier::opaque]
+pub open spec fn run<H: Host>(s: MS<H>, n: nat) -> MS<H>
+    decreases n
+{
+    if n == 0 { s } else { substep(run(s, (n - 1) as nat)).0 }
+}
+/// ... none of which ended the run
+#[verifier::opaque]
+pub open spec fn all_continue<H: Host>(s: MS<H>, n: nat) -> bool
+    decreases n
+{
+    n == 0 || (all_continue(s, (n - 1) as nat) && substep(run(s, (n - 1) as nat)).1 is Continue)
+}
+
+/// C16 (slicing independence): a steps then b steps are a+b steps, so every way of cutting a run
+/// into emulate_frames calls (frames per call, max speed, stopwatch timeouts, breakpoint stop and
+/// resume) passes through the same machine states
+pub proof fn lemma_run_step<H: Host>(s: MS<H>, n: nat)
+    ensures run(s, 0) == s, all_continue(s, 0),
+        run(s, n + 1) == substep(run(s, n)).0,
+        all_continue(s, n + 1) == (all_continue(s, n) && substep(run(s, n)).1 is Continue),
+{
+    reveal_with_fuel(run, 2);
+    reveal_with_fuel(all_continue, 2);
+    assert((n + 1 - 1) as nat == n);
+}
+
+pub proof fn lemma_run_compose<H: Host>(s: MS<H>, a: nat, b: nat)
+    ensures run(run(s, a), b) == run(s, a + b),
+        all_continue(s, a) && all_continue(run(s, a), b) ==> all_continue(s, a + b),
+    decreases b
+{
+    lemma_run_step(run(s, a), 0);
+    if b > 0 {
+        lemma_run_compose(s, a, (b - 1) as nat);
+        lemma_run_step(run(s, a), (b - 1) as nat);
+        lemma_run_step(s, a + (b - 1) as nat);
+        assert(a + (b - 1) as nat + 1 == a + b);
+        assert((b - 1) as nat + 1 == b);
+    }
+}
+
+impl Z80 {
+    /// assumed: a function of (CPU, machine view of the bus) - see unit header
+    #[verifier::external_body]
+    pub fn emulate<H: Host>(&mut self, bus: &mut ZXController<H>)
+        ensures (*final(self), mview(*final(bus))) == cpu_step(*old(self), mview(*old(bus))),
+    { unimplemented!() }
+}
+
+impl EmulationEvents {
+    pub const TAPE_FAST_LOAD_TRIGGER_DETECTED: EmulationEvents = EmulationEvents { bits: 1 };
+    pub const PC_BREAKPOINT: EmulationEvents = EmulationEvents { bits: 2 };
+    /// bitflags-generated (assumed)
+    #[verifier::external_body]
+    pub fn is_empty(&self) -> (r: bool)
+        ensures r == (self.bits == 0),
+    { unimplemented!() }
+    #[verifier::external_body]
+    pub fn contains(&self, other: EmulationEvents) -> (r: bool)
+        ensures r == (self.bits & other.bits == other.bits),
+    { unimplemented!() }
+
+//@ fn rustzx-core/src/zx/events.rs impl EmulationEvents::take props C16
+//@ ret r
+//@ sig
+        ensures r == *old(self), final(self).bits == 0,
+//@ end
+}
+
+impl<A> ZXTape<A> {
+    #[verifier::external_body]
+    pub fn can_fast_load(&self) -> (r: bool)
+        ensures r == tape_can_fast_load(*self),
+    { unimplemented!() }
+}
+
+pub mod fastload { pub mod tap {
+    use super::super::*;
+    /// assumed: a function of the machine state (what it computes: unit fastload, C10)
+    #[verifier::external_body]
+    pub fn fast_load_tap<H: Host>(emulator: &mut Emulator<H>) -> (r: Result<()>)
+        ensures (final(emulator).ms(), match r { Ok(_) => None::<Error>, Err(e) => Some(e) }) == fast_load(old(emulator).ms()),
+    { unimplemented!() }
+} }
+
+impl<H: Host> ZXController<H> {
+//@ fn rustzx-core/src/zx/controller.rs impl <H:Host>ZXController<H>::take_last_emulation_error props C16
+//@ ret r
+//@ sig
+        ensures r == old(self).last_emulation_error,
+            *final(self) == clr_err(*old(self)),
+//@ end
+
+//@ fn rustzx-core/src/zx/controller.rs impl <H:Host>ZXController<H>::take_events props C16
+//@ ret r
+//@ sig
+        ensures r == old(self).events,
+            *final(self) == clr_ev(*old(self)),
+//@ end
+}
+
+impl<H: Host> Emulator<H> {
+//@ fn rustzx-core/src/emulator/mod.rs impl <H:Host>Emulator<H>::process_fast_load_event props C16
+//@ ret r
+//@ sig
+        ensures
+            tape_can_fast_load(old(self).controller.tape) && old(self).fast_load ==>
+                (final(self).ms(), match r { Ok(_) => None::<Error>, Err(e) => Some(e) }) == fast_load(old(self).ms()),
+            !(tape_can_fast_load(old(self).controller.tape) && old(self).fast_load) ==> r is Ok && final(self).ms() == old(self).ms(),
+//@ end
+
+//@ fn rustzx-core/src/emulator/mod.rs impl <H:Host>Emulator<H>::emulate_frames props C16
+//@ ret r
+//@ sig
+        // C16: whatever the mode, the time limit and the stopwatch readings, the call performs
+        // k+1 machine steps and nothing else (the first k do not end the run); it stops early
+        // only for the reason it reports
+        ensures exists|k: nat| all_continue(old(self).ms(), k)
+            && ({ let (sf, last) = substep(#[trigger] run(old(self).ms(), k));
+                  sf == final(self).ms() && match r {
+                    Err(e) => last == Outcome::Fail(e),
+                    Ok(info) => if info.stop_reason == EmulationStopReason::Breakpoint { last is Break } else { last is Continue },
+                  } }),
+//@ at 0 //
+        let ghost s0 = self.ms();
+        let ghost n: nat = 0;
+        proof { lemma_run_step(s0, 0); }
+//@ loop 0
+            invariant all_continue(s0, n), run(s0, n) == self.ms(), s0 == old(self).ms(),
+//@ at 1 /self\.controller\.reset_frame_counter\(\);/
+            proof { lemma_mview(self.controller); }
+//@ loop 1
+            invariant all_continue(s0, n), run(s0, n) == self.ms(), s0 == old(self).ms(),
+            ensures n >= 1,
+//@ after 1 /self\.cpu\.emulate\(&mut self\.controller\);/
+                proof {
+                    lemma_run_step(s0, n);
+                    n = n + 1;
+                    assert(0u8 & 1 != 1 && 0u8 & 2 != 2) by(bit_vector);
+                    lemma_mview(self.controller);
+                }
+//@ at 1 /let events = self\.controller\.take_events\(\);/
+                proof { lemma_mview(self.controller); }
+//@ at 1 /if stopwatch\.measure\(\) > emulation_limit/
+            proof { lemma_run_step(s0, (n - 1) as nat); }
+//@ end
 }
 
 } // verus!
